@@ -73,7 +73,12 @@ def _gen_options():
     gen_options.main()
 
 
-GENERATORS = [_gen_options]
+def _gen_parser_loops():
+    import gen_parser_loops
+    gen_parser_loops.main()
+
+
+GENERATORS = [_gen_options, _gen_parser_loops]
 TRUSTED = [
     "harness/gen_options.py (registry table; codec kind assigned from the identity of the registered callables)",
     "C19's model of from_isodatetime (Model/IsoText.lean) as the driver's date-time classifier; texts it does not model (no 'T', no leading 'P') are compared by the oracle only",
@@ -790,38 +795,61 @@ def ch_fuzz_mp4(ctx) -> Channel:
     import c16_http
     import c16_mp4 as M
     ch = Channel("fuzz_mp4", rule=(
-        "EXPLORATION (no model): truncations, bit flips, size-field and type-field edits of valid MP4 (four "
-        "mp4synth tracks incl. encrypted / sidx+styp / emsg, heads of three real fixtures) fed to Mp4Atom.load "
-        "(eager + Representation.load, and lazy 'rw' + encode as load_fragment does) and to the endpoints: "
-        "inspect (upload), upload -> index -> stream page / media info / segment list / segment pages / "
-        "manifest / init / media segment / edit page -> delete; oracle: the library call returns or raises an "
-        "ordinary exception within 10 s (no MemoryError/RecursionError), every endpoint answers < 500 within "
-        "20 s; non-trivial = a mutated input the parser does not reject outright or an endpoint sequence that "
-        "indexed the file; distinct by mutation"))
+        "EXPLORATION (no model): valid MP4 seeds = four mp4synth tracks (clear, encrypted, sidx+styp, emsg), "
+        "heads of three real fixtures, and one minimal file per *layout class* the fixtures lack (trun with each "
+        "class of per-sample flag subsets incl. none - samples then take no space in the box -, saiz with a "
+        "default size / with a size table / empty, senc of bare IVs / with subsamples / without entries, pssh v1 "
+        "with a KID list, sidx); mutations = truncations, bit flips, size-field and type-field edits, and for "
+        "every count or size field that drives a parser loop (trun, saiz, saio, senc, subsample, sidx, st** "
+        "tables, pssh KID list and data size, avcC/hvcC set counts; located by the independent walker) the edits "
+        "0, 1, 2, 255, 2^16-1, 2^16, 2^24, 2^31-1, 2^31, 2^32-1; fed to three library entry points - index "
+        "(Mp4Atom.load + Representation.load, as parse_media_file), lazy (mode rw + touch + encode, as "
+        "load_fragment), full (lazy_load=False + toJSON, as the inspect and segment pages) - and to the "
+        "endpoints: inspect (upload), upload -> index -> stream page / media info / segment list / segment "
+        f"pages / manifest / init / media segment / edit page -> delete; BUDGET per library call {M.LIB_LIMIT:.0f} s "
+        f"wall clock and {c16_http.MEM_LIMIT >> 20} MiB growth of the process, per endpoint request "
+        f"{c16_http.TIME_LIMIT:.0f} s and the same memory budget (watchdog: interval timer that raises inside "
+        "the running call); oracle: the library call returns or raises an ordinary exception within its "
+        "budget (no MemoryError/RecursionError), every endpoint answers < 500 within its budget; non-trivial = a "
+        "mutated input the parser does not reject outright or an endpoint sequence that indexed the file; "
+        "distinct by mutation"))
     rng = ctx.rng("fuzz_mp4")
     app = c16_http.world()
     S = M.seeds()
+    small = [k for k in sorted(S) if len(S[k]) < 20000]
     cases = [({"seed": k, "op": "none"}, v) for k, v in sorted(S.items())]
-    n_lib, n_insp, n_idx = ctx.scale(260, 6000), ctx.scale(60, 1500), ctx.scale(45, 1200)
+    n_plain = len(cases)
+    # ---- count / size fields of every layout class
+    quick_values = [0, 1, 2, 255, 1 << 24, 1 << 31, (1 << 32) - 1]
+    count_cases = []
+    for k in (sorted(S) if ctx.thorough else small):
+        count_cases += M.count_cases(k, S[k], None if ctx.thorough else quick_values)
+    ch.count("count-field cases", len(count_cases))
+    # ---- seeded mutations
+    n_lib, n_insp, n_idx = ctx.scale(200, 6000), ctx.scale(50, 1500), ctx.scale(40, 1200)
+    rand_cases = []
     for _ in range(n_lib):
         k = rng.choice(sorted(S))
-        cases.append(M.mutate(rng, k, S[k]))
+        rand_cases.append(M.mutate(rng, k, S[k]))
     seen = set()
-    for desc, data in cases:
-        for lazy in (False, True):
+    for desc, data in cases + count_cases + rand_cases:
+        for target in M.LIB_TARGETS:
             ch.evaluations += 1
-            r = M.run_lib(data, lazy)
-            ch.count(f"lib:{'lazy' if lazy else 'eager'}:{r['outcome']}")
+            r = M.run_lib(data, target)
+            ch.count(f"lib:{target}:{r['outcome']}")
             if r["outcome"] == "ok" and desc["op"] != "none":
-                ch.nontrivial.add((repr(desc), lazy))
+                ch.nontrivial.add((repr(desc), target))
             why = M.lib_violation(r)
-            if why and (desc["op"], why) not in seen:
-                seen.add((desc["op"], why))
-                ch.oracle_failures.append({"kind": "mp4", "target": "lib-lazy" if lazy else "lib", "desc": desc,
-                                           "why": why})
+            key = (desc["op"], desc.get("box"), desc.get("field"), target)
+            if why and key not in seen:
+                seen.add(key)
+                ch.oracle_failures.append({"kind": "mp4", "target": f"lib:{target}", "desc": desc, "why": why})
+    # the count edits most likely to make a loop run away, for the endpoints
+    big = [c for c in count_cases if c[0]["new"] >= 1 << 24 and c[0]["box"] in ("trun", "senc", "saiz", "saio", "pssh", "sidx")]
+    rng.shuffle(big)
     with appboot.Clock(c16_http.NOW):
         up = M.Uploader(app)
-        sub = cases[:len(S)] + [cases[len(S) + i] for i in range(min(n_insp, n_lib))]
+        sub = cases[:n_plain] + big[:ctx.scale(30, 400)] + rand_cases[:n_insp]
         for desc, data in sub:
             for st in up.inspect(data):
                 ch.evaluations += 1
@@ -833,7 +861,7 @@ def ch_fuzz_mp4(ctx) -> Channel:
                     seen.add(("inspect", str(st["exc"][:2] if st["exc"] else why)))
                     ch.oracle_failures.append({"kind": "mp4", "target": "inspect", "desc": desc, "why": why,
                                                "exception": list(st["exc"]) if st["exc"] else None})
-        sub = cases[:len(S)] + [cases[len(S) + n_insp + i] for i in range(min(n_idx, max(0, n_lib - n_insp)))]
+        sub = cases[:n_plain] + big[:ctx.scale(10, 150)] + rand_cases[n_insp:n_insp + n_idx]
         for desc, data in sub:
             steps = up.upload_index(data)
             ch.evaluations += 1
@@ -847,7 +875,11 @@ def ch_fuzz_mp4(ctx) -> Channel:
                     seen.add(key)
                     ch.oracle_failures.append({"kind": "mp4", "target": "index", "desc": desc, "why": why,
                                                "step": st["step"], "exception": list(st["exc"]) if st["exc"] else None})
-    ch.sample({"seeds": {k: len(v) for k, v in S.items()}}, limit=1)
+    ch.sample({"seeds": {k: len(v) for k, v in S.items()},
+               "budget": {"library_call_s": M.LIB_LIMIT, "endpoint_request_s": c16_http.TIME_LIMIT,
+                          "memory_growth_MiB": c16_http.MEM_LIMIT >> 20}}, limit=1)
+    if count_cases:
+        ch.sample(count_cases[len(count_cases) // 2][0], limit=2)
     return ch
 
 
@@ -903,7 +935,8 @@ def _replay_mp4(f) -> dict:
     import c16_mp4 as M
     data = M.rebuild(f["desc"])
     if f["target"].startswith("lib"):
-        r = M.run_lib(data, f["target"] == "lib-lazy")
+        target = {"lib": "index", "lib-lazy": "lazy"}.get(f["target"], f["target"].split(":")[-1])
+        r = M.run_lib(data, target)
         return {"fails": M.lib_violation(r) is not None, "outcome": r}
     app = c16_http.world()
     with appboot.Clock(c16_http.NOW):
